@@ -153,8 +153,20 @@ def F14():
     return "opacity" not in SVG.fromstring(src).topicosvg().tostring()
 
 
+def F15():
+    # parsed shapes + apply_style_attributes: inherited style declarations become attributes of the shape
+    from picosvg.svg import SVG
+    src = '<svg xmlns="http://www.w3.org/2000/svg" viewBox="0 0 10 10"><g style="stroke-width:3"><path d="M1,1 h2 v2 z"/></g></svg>'
+    a = SVG.fromstring(src)
+    a.shapes()
+    a.apply_style_attributes(inplace=True)
+    b = SVG.fromstring(src)
+    b.apply_style_attributes(inplace=True)
+    return a.tostring() != b.tostring()
+
+
 if __name__ == "__main__":
-    names = sys.argv[1:] or [f"F{i}" for i in range(1, 15)] + ["F9b"]
+    names = sys.argv[1:] or [f"F{i}" for i in range(1, 16)] + ["F9b"]
     for n in names:
         try:
             r = globals()[n]()
